@@ -59,7 +59,7 @@ def setup(eng, with_prlimit=True):
     env.install_options(eng, lambda: eng._ns)
 
 
-def run_matches_golden(eng, p):
+def run_matches_golden(eng, p, P='C09'):
     chk = eng.load_module('ddsmt.checker')
     RunInfo = chk.g['RunInfo']
     f = chk.g['matches_golden']
@@ -68,11 +68,11 @@ def run_matches_golden(eng, p):
     io, ie = mk.sbool(p, 'ignore_out'), mk.sbool(p, 'ignore_err')
     mo, me = mk.opt_str(p, 'match_out'), mk.opt_str(p, 'match_err')
     out = outcome(eng, f, [g, r, io, ie, mo, me])
-    p.oblige('C09/matches_golden/raises-nothing', out.kind == 'return',
+    p.oblige(f'{P}/matches_golden/raises-nothing', out.kind == 'return',
              info=repr(out))
     if out.kind == 'return':
         res = eng.truth_sym(out.value)
-        p.oblige('C09/matches_golden/post',
+        p.oblige(f'{P}/matches_golden/post',
                  zb(res) == spec_matches(g, r, io, ie, mo, me))
 
 
@@ -121,7 +121,7 @@ sys.exit(1 if bool(got) != want else 0)
 # -- check(): wiring of options, golden records and the cross check -------------
 
 
-def run_check(eng, p):
+def run_check(eng, p, P='C09'):
     chk = eng.load_module('ddsmt.checker')
     RunInfo = chk.g['RunInfo']
     ns = env.symbolic_options(p)
@@ -146,13 +146,13 @@ def run_check(eng, p):
     eng.overrides['ddsmt.checker.matches_golden'] = mg_stub
     fname = mk.sstr(p, 'filename')
     out = outcome(eng, chk.g['check'], [fname])
-    p.oblige('C09/check/raises-nothing', out.kind == 'return',
+    p.oblige(f'{P}/check/raises-nothing', out.kind == 'return',
              info=repr(out))
     if out.kind != 'return':
         return
     res = zb(eng.truth_sym(out.value))
     # first run: the command itself, on the file, with the main time limit
-    p.oblige('C09/check/runs-cmd-first',
+    p.oblige(f'{P}/check/runs-cmd-first',
              len(calls) >= 1 and calls[0][0] is ns.cmd and
              calls[0][1] is fname and calls[0][2] is ns.timeout)
     io = z3.Or(zb(ns.ignore_output), zb(ns.ignore_out))
@@ -162,21 +162,21 @@ def run_check(eng, p):
     has_cc = zb(eng.truth_sym(ns.cmd_cc))
     if len(calls) == 1:
         # no cross-check run happened: either none configured or main failed
-        p.oblige('C09/check/wiring',
+        p.oblige(f'{P}/check/wiring',
                  res == z3.And(main_ok, z3.Not(has_cc)))
-        p.oblige('C09/check/cc-skipped-only-if-unneeded',
+        p.oblige(f'{P}/check/cc-skipped-only-if-unneeded',
                  z3.Or(z3.Not(main_ok), z3.Not(has_cc)))
     else:
-        p.oblige('C09/check/runs-cc-second',
+        p.oblige(f'{P}/check/runs-cc-second',
                  len(calls) == 2 and calls[1][1] is fname and
                  calls[1][2] is ns.timeout_cc and
                  calls[1][0] is ns.cmd_cc)
         cc_ok = spec_matches(GCC, calls[1][3], zb(ns.ignore_output_cc),
                              zb(ns.ignore_output_cc), ns.match_out_cc,
                              ns.match_err_cc)
-        p.oblige('C09/check/wiring',
+        p.oblige(f'{P}/check/wiring',
                  res == z3.And(main_ok, has_cc, cc_ok))
-        p.oblige('C09/check/cc-skipped-only-if-unneeded',
+        p.oblige(f'{P}/check/cc-skipped-only-if-unneeded',
                  z3.And(main_ok, has_cc))
 
 
@@ -375,31 +375,40 @@ def setup_tmp(eng):
     eng.native_modules['threading'] = th
 
 
-def run_tmpname(eng, p):
+def run_tmpname(eng, p, P='C09'):
     eng.modules.pop('ddsmt.tmpfiles', None)
     tmp = eng.load_module('ddsmt.tmpfiles')
     ns = env.symbolic_options(p)
     eng._ns = ns
     o1 = outcome(eng, tmp.g['init'], [])
     o2 = outcome(eng, tmp.g['get_tmp_filename'], [])
-    p.oblige('C09/get_tmp_filename/raises-nothing',
+    p.oblige(f'{P}/get_tmp_filename/raises-nothing',
              o1.kind == 'return' and o2.kind == 'return',
              info=repr((o1, o2)))
     if o2.kind != 'return':
         return
     name = o2.value
     ext = SStr([('v', eng._EXT(ns.infile.z))])
-    p.oblige('C09/get_tmp_filename/has-input-extension',
+    p.oblige(f'{P}/get_tmp_filename/has-input-extension',
              isinstance(name, SStr) and name.endswith(ext))
+    o3 = outcome(eng, tmp.g['get_tmp_filename'], [])
     td = p.ghost['tmpdir_obj']
-    p.oblige('C09/get_tmp_filename/inside-tmpdir',
+    p.oblige(f'{P}/get_tmp_filename/inside-tmpdir',
              isinstance(name, SStr) and name.startswith(td.name))
     # process-private: the decimal renderings of os.getpid() and
     # threading.get_ident() are parts of the name, separated by literals
     nums = [str(t) for k, t in name.parts if k == 'n'] \
         if isinstance(name, SStr) else []
-    p.oblige('C09/get_tmp_filename/embeds-pid-and-thread-id',
+    p.oblige(f'{P}/get_tmp_filename/embeds-pid-and-thread-id',
              nums == ['getpid', 'tid'], info=repr(name))
+    # a later call -- e.g. in a forked worker -- uses the pid / thread id of
+    # *that* call (nothing is cached across calls)
+    if o3.kind == 'return' and isinstance(o3.value, SStr):
+        nums3 = [str(t) for k, t in o3.value.parts if k == 'n']
+        p.oblige(f'{P}/get_tmp_filename/private-per-process-on-every-call',
+                 nums3 == ['getpid!1', 'tid!1'],
+                 info={'name': repr(o3.value), 'signature':
+                       'candidate file name is not recomputed per process'})
 
 
 def run_check_exprs(eng, p):
